@@ -9,7 +9,7 @@
 (***************************************************************************)
 EXTENDS Naturals, Sequences, FiniteSets, TLC, Json
 
-CONSTANTS MaxD,          \* distances 2..MaxD
+CONSTANTS MaxD,          \* distances 1..MaxD (1: an adjacent candidate for which the header type itself reports a soft failure)
           AllTrustUpTo,  \* every trust predicate is enumerated up to this distance
           MaxR           \* beyond it: interval predicates b - a <= R for R in 1..MaxR
 
@@ -23,7 +23,7 @@ Inputs ==
   LET TrustsOf(d) == IF d <= AllTrustUpTo THEN SUBSET Pairs(d) ELSE {Interval(d, r) : r \in 1..MaxR} IN
   UNION {{[d |-> d, trust |-> t, forged |-> f, failAt |-> k, badMid |-> m, adjSoft |-> as] :
              t \in TrustsOf(d), f \in BOOLEAN, k \in 0..3, m \in {0} \cup (IF d <= 4 THEN 1..(d - 1) ELSE {}),
-             as \in (IF d <= 4 THEN BOOLEAN ELSE {FALSE})} : d \in 2..MaxD}
+             as \in (IF d <= 4 THEN BOOLEAN ELSE {FALSE})} : d \in 1..MaxD}
 
 \* header.Verify(trusted a, untrusted b) for b forged or canonical
 Ver(i, a, b, forgedB) ==
